@@ -392,6 +392,13 @@ impl<'this> InternalOptimisingLineFormatter<'this, '_> {
                 ),
                 Decision::Continue => format!("\nWD {} C", global_token_index),
             });
+            #[cfg(feature = "verif-hooks")]
+            crate::defaults::parser::verif_events::ev(&format!(
+                "\nWL {} {} {}",
+                global_token_index,
+                decision.last_line_length,
+                (decision_index == 0) as u8
+            ));
             match decision.decision {
                 Decision::Break { continuations } => {
                     /*
